@@ -50,8 +50,14 @@ def prepare(tier):
     return {"progs": common.datasets("progs", common.REFS, k), "consts": common.datasets("consts", common.REFS, tier)}
 
 
-INTERIM = {"3.7": [(3390, 12), (3391, 12), (3392, 16), (3393, 16)], "3.8": [(3410, 16), (3411, 16), (3412, 16)],
-           "3.9": [(3420, 16), (3421, 16), (3422, 16), (3423, 16), (3424, 16)]}
+# source release -> [(pre-release magic, header length, version the file is of)]: CPython's registry
+# (importlib/_bootstrap_external.py) says what changed at each magic; only magics whose marshal layout equals the source's
+INTERIM = {"3.6": [(3376, 12, (3, 6)), (3377, 12, (3, 6)), (3378, 12, (3, 6)), (3379, 12, (3, 6)),
+                   # the 3.3 series: the source-size word arrived with 3210; the code layout is that of 3.0-3.7
+                   (3190, 8, (3, 3)), (3200, 8, (3, 3)), (3210, 12, (3, 3)), (3220, 12, (3, 3)), (3230, 12, (3, 3))],
+           "3.7": [(3390, 12, (3, 7)), (3391, 12, (3, 7)), (3392, 16, (3, 7)), (3393, 16, (3, 7))],
+           "3.8": [(3410, 16, (3, 8)), (3411, 16, (3, 8)), (3412, 16, (3, 8))],
+           "3.9": [(3420, 16, (3, 9)), (3421, 16, (3, 9)), (3422, 16, (3, 9)), (3423, 16, (3, 9)), (3424, 16, (3, 9))]}
 OLD_LAYOUTS = [(1, 5), (1, 6), (2, 0), (2, 1), (2, 2)]
 
 
@@ -105,9 +111,10 @@ def cases(plan, tier, shard, nshards, host):
                 if idx < 0 or not rec["id"].endswith("@module") or len(rec["pyc"]) > 3000:
                     continue
                 payload = unhx(rec["pyc"])[rec["hdrlen"]:]
-                for mi, hdr_len in magics_:
-                    hdr = struct.pack("<H", mi) + b"\r\n" + (struct.pack("<III", 0, 0x5F000000, 0x1234) if hdr_len == 16 else struct.pack("<II", 0x5F000000, 0x1234))
-                    yield {"kind": "interim", "id": "%s|magic%d" % (rec["id"], mi), "ver": list(common.vt(v)), "tver": list(common.vt(v)), "pyc": hx(hdr + payload),
+                for mi, hdr_len, fver in magics_:
+                    hdr = struct.pack("<H", mi) + b"\r\n" + (struct.pack("<III", 0, 0x5F000000, 0x1234) if hdr_len == 16 else
+                                                           struct.pack("<II", 0x5F000000, 0x1234) if hdr_len == 12 else struct.pack("<I", 0x5F000000))
+                    yield {"kind": "interim", "id": "%s|magic%d" % (rec["id"], mi), "ver": list(common.vt(v)), "tver": list(fver), "pyc": hx(hdr + payload),
                            "hdrlen": len(hdr), "tree": rec["tree"]}
         # (vi) the layouts before 2.3 (16-bit counts; no free/cell variables before 2.1): Python 2.7 programs written in the old
         # layout by the model's own writer (models/m_marshal.dump_tree), expected tree = the 2.7 tree restricted to the fields of
@@ -267,6 +274,9 @@ def run_case(case, ctx):
         co = None
         ctx.count("native_foreign_skipped")
     except ImportError as e:
+        if case["kind"] == "interim" and ("interim" in str(e) or "not supported" in str(e)):
+            ctx.count("interim_magics_refused_by_load_module")   # refusing a pre-release is a documented choice of the loader
+            return
         ctx.violation("%d.%d:load_module-raises:%s" % (tver[0], tver[1], _exc_kind(e)), str(e)[:300])
         co = None
     except Exception as e:
